@@ -5,6 +5,7 @@ package restful
 // that can be found in the LICENSE file.
 
 import (
+	"net/http"
 	"regexp"
 	"strconv"
 	"strings"
@@ -98,7 +99,8 @@ func (c *CrossOriginResourceSharing) doPreflightRequest(req *Request, resp *Resp
 		}
 		return
 	}
-	acrhs := req.Request.Header.Get(HEADER_AccessControlRequestHeaders)
+	// a list-valued header may be sent on more than one line: every line counts
+	acrhs := strings.Join(req.Request.Header[http.CanonicalHeaderKey(HEADER_AccessControlRequestHeaders)], ",")
 	if len(acrhs) > 0 {
 		for _, each := range strings.Split(acrhs, ",") {
 			if !c.isValidAccessControlRequestHeader(strings.Trim(each, " ")) {
